@@ -3,16 +3,16 @@
 (* variants, and the set of calls the model checker explores.                                       *)
 EXTENDS Integers, Sequences
 
-Alts == 0..3      \* 0 = int, 1 = NT (noexcept move), 2 = TM, 3 = TM2 (throwing move)
+Alts == 0..3      \* set "mixed": 0 = int, 1 = NT (noexcept move), 2 = TM, 3 = TM2 (throwing move); see VariantLifetime
 K == {1, 2}       \* the two variants
 
 (* The calls explored by the model checker: every operation family x operands x alternative x     *)
 (* value x argument kind, one syntactic form each (the forms - in_place_index / in_place_type /    *)
 (* converting, member / free swap, get by index / by type and the four reference kinds - do not     *)
 (* differ in meaning; checks/c05.py varies them when it replays the transitions on the real code). *)
-MCCallsOver(vals) ==
+MCCallsOver(vals, tracked) ==
     LET KK == {<<1, 2>>, <<2, 1>>}
-        VA == {t \in [alt : Alts, val : vals, ak : {"value", "copy", "move"}] : t.alt = 0 => t.ak = "value"}
+        VA == {t \in [alt : Alts, val : vals, ak : {"value", "copy", "move"}] : t.alt \notin tracked => t.ak = "value"}
     IN  {[c |-> "CtorDefault", a |-> [k |-> k]] : k \in K}
         \cup {[c |-> "CtorValue", a |-> [k |-> k, alt |-> t.alt, val |-> t.val, ak |-> t.ak, form |-> "index"]] : k \in K, t \in VA}
         \cup {[c |-> "Emplace", a |-> [k |-> k, alt |-> t.alt, val |-> t.val, ak |-> t.ak, form |-> "index"]] : k \in K, t \in VA}
@@ -24,7 +24,13 @@ MCCallsOver(vals) ==
         \cup {[c |-> "Get", a |-> [k |-> k, alt |-> j, form |-> "index", ref |-> "l"]] : k \in K, j \in Alts}
         \cup {[c |-> "GetIf", a |-> [k |-> k, alt |-> j, form |-> "index", c |-> 0, null |-> n]] : k \in K, j \in Alts, n \in {0, 1}}
         \cup {[c |-> "Rel", a |-> [k |-> k, o |-> o, rel |-> r]] : k \in K, o \in K, r \in {"eq", "ne", "lt", "gt", "le", "ge"}}
-        \cup {[c |-> "Visit", a |-> [ks |-> ks, c |-> 0]] : ks \in {<<>>} \cup [1..1 -> K] \cup [1..2 -> K] \cup [1..3 -> K]}
-        \cup {[c |-> "XRef", a |-> [held |-> h, want |-> w, ref |-> "l", list |-> n, val |-> 5]] :
-                  h \in {"ref", "cref", "other"}, w \in {"ref", "cref"}, n \in {2, 3}}
+        \cup {[c |-> "Visit", a |-> [ks |-> ks, c |-> 0, r |-> 0, rv |-> 0]] : ks \in {<<>>} \cup [1..1 -> K] \cup [1..2 -> K] \cup [1..3 -> K]}
+        \cup {[c |-> "Visit", a |-> [ks |-> ks, c |-> 0, r |-> r, rv |-> rv]] :            \* reference-returning visitor, rvalue variants
+                  ks \in [1..1 -> K] \cup {<<1, 2>>}, r \in {0, 1}, rv \in {0, 1}}
+        \cup {[c |-> "XRef", a |-> [held |-> h, want |-> w, ref |-> "l", list |-> n, val |-> 5, w |-> wr]] :
+                  h \in {"ref", "cref", "other"}, w \in {"ref", "cref"}, n \in {2, 3, 4}, wr \in {0, 1}}
+        \cup {[c |-> "Hash", a |-> [k |-> k, o |-> o]] : k \in K, o \in K}
+        \cup {[c |-> "Mono", a |-> [q |-> q]] : q \in {"eq", "ne", "lt", "gt", "le", "ge", "hash", "default"}}
+        \cup {[c |-> "Nest", a |-> [alt |-> j, val |-> x, mode |-> m]] : j \in Alts, x \in vals, m \in {"copy", "move", "swap", "visit"}}
+        \cup {[c |-> "Up", a |-> [t |-> t, alt |-> j, val |-> x]] : t \in {"overload", "visitret"}, j \in 0..2, x \in vals}
 =============================================================================
